@@ -19,6 +19,7 @@ THEOREMS = ["EngineModel.Properties.C03." + t for t in [
     "C03_compress_complete", "C03_compress_avail_in_condition_counterexample",
     "C03_compress_empty_ub", "C03_compress_input_nonempty", "C03_compress_chunk_schedule",
     "C03_compress_chunk_plan", "C03_compress_finish_only_last", "C03_compress_remaining_counter_counterexample",
+    "C03_uncompress_compress",
 ]]
 ASSUMPTIONS = [
     "payload level: the zlib framing is covered by C02/C05 (the tie compares uncompressed payloads, which the harness "
